@@ -393,12 +393,7 @@ func decoders(c *simkit.Choices, x *simkit.Ctx) *simkit.Violation {
 }
 
 func pickType(c *simkit.Choices) *model.TypeEntry {
-	for {
-		te := &model.Catalogue[c.N(len(model.Catalogue))]
-		if te.Supported {
-			return te
-		}
-	}
+	return model.PickType(c, true, false, false)
 }
 
 // iterator: one Iterator folds a history of values, then a probe value.
@@ -408,7 +403,7 @@ func iterator(c *simkit.Choices, x *simkit.Ctx) *simkit.Violation {
 	sc := &Scenario{Kind: "iterator"}
 	var vals []interface{}
 	for i := 0; i <= nh; i++ {
-		te := pickType(c)
+		te := model.PickType(c, false, false, false) // fold-only types included
 		if i > 0 && c.N(3) == 0 {
 			te = model.TypeByName(sc.Types[c.N(len(sc.Types))]) // re-use of an already compiled type
 		}
